@@ -46,6 +46,8 @@ pub(super) struct AluKey {
     a: u32,
     b: u32,
     c: u32,
+    /// Accumulator of a `HornerAcc` step (carried in `intermediate_out`); `None` otherwise.
+    acc: Option<u32>,
 }
 
 impl AluKey {
@@ -57,20 +59,32 @@ impl AluKey {
                 a: a.0.min(b.0),
                 b: a.0.max(b.0),
                 c: 0,
+                acc: None,
             },
             AluOpKind::BoolCheck => Self {
                 kind,
                 a: a.0,
                 b: b.0,
                 c: 0,
+                acc: None,
             },
             AluOpKind::MulAdd | AluOpKind::HornerAcc => Self {
                 kind,
                 a: a.0,
                 b: b.0,
                 c: c.unwrap_or(WitnessId(0)).0,
+                acc: None,
             },
         }
+    }
+
+    /// Key for a full ALU op. A `HornerAcc` step computes `acc * b + c - a`, so two steps
+    /// are only interchangeable when their accumulators agree as well.
+    pub(super) fn with_accumulator(mut self, acc: Option<WitnessId>) -> Self {
+        if self.kind == AluOpKind::HornerAcc {
+            self.acc = acc.map(|id| id.0);
+        }
+        self
     }
 }
 
